@@ -12,7 +12,7 @@ Reference side (never calls werkzeug):
   are all distinct, compared with what Content-Range declares and what the iterable produced.
 
 Check names (stable):
-  cond_304_sound, cond_304_always, cond_304_always_if_match, cond_412_sound, cond_status, cond_body,
+  cond_304_sound, cond_304_always, cond_304_always_if_match, cond_412_sound, cond_412_expected, cond_status, cond_body,
   cond_post_untouched, range_206_exact, range_206_inside_request, range_416_expected, range_suffix_zero,
   range_satisfiable_served, range_suffix_longer_than_resource, range_200_complete, range_exception,
   range_body_empty_chunks
@@ -247,6 +247,10 @@ def _eval_cond(case):
                 out.append(("cond_412_sound", inp_desc, "If-Match admits the current ETag: no 412"))
             if status == 304 and not (lenient and date_match):
                 out.append(("cond_304_sound", inp_desc, "no 304: a sent validator does not match"))
+            if not cur_weak and not strict and status != 412:
+                # beyond the literal statement (which only says "412 only when"): RFC 7232 3.1 completeness in the
+                # unambiguous case -- the current ETag is strong and no listed strong tag equals it
+                out.append(("cond_412_expected", inp_desc, "412: If-Match lists no strong tag equal to the current ETag"))
             if strict and date_match and status != 304:
                 out.append(("cond_304_always_if_match", inp_desc, "304: If-Match admits and If-Modified-Since matches"))
     elif inm is not None and etag is not None and _nonblank(inm):
@@ -421,10 +425,8 @@ def _eval_range(case, tmpdir=None):
         else:
             text, inst = _date_header(ir)
             hdrs["If-Range"] = text
-            if lm_us is None or inst is None:
-                ir_verdict = "mismatch" if inst is not None or lm_us is None else "either"
-                if inst is None and lm_us is not None:
-                    ir_verdict = "mismatch"     # an unreadable validator cannot match
+            if lm_us is None:
+                ir_verdict = "mismatch"         # nothing to compare the date with
             else:
                 lmf = _floor_s(_T0 + timedelta(microseconds=lm_us))
                 ir_verdict = "match" if lmf == inst else ("mismatch" if lmf > inst else "either")
@@ -482,8 +484,6 @@ def _eval_range(case, tmpdir=None):
     else:
         if klass in ("malformed", "multi", "suffix0") or (klass == "single" and want is None):
             allow416 = True
-            if klass == "multi" and not strict:
-                allow416 = True
         elif klass == "other_unit":
             allow416 = allow200 = True       # unsatisfiable (werkzeug) or ignored (RFC 7233 3.1): never a 206
         else:
@@ -492,8 +492,6 @@ def _eval_range(case, tmpdir=None):
                 allow416 = True
         if ir_verdict == "either":
             allow200 = True
-    if klass != "absent" and not strict and not ignored and n > 0 and klass in ("malformed",):
-        allow416 = True
 
     def name(default):
         return "range_body_empty_chunks" if empty_chunks else default
